@@ -106,6 +106,10 @@ class GcodeHandlers(object):
         # Compute the number of segments to produce based on the length of the arc
         arcLength = abs(angularTravel) * radius
         numSegments = int(math.ceil(arcLength / MM_PER_ARC_SEGMENT))
+        if (numSegments < 1):
+            # Degenerate arc (e.g. no angular travel, but the target isn't the current position)
+            numSegments = 1
+
 
         angle = math.atan2(-j, -i)
         angularIncrement = angularTravel / numSegments
